@@ -245,6 +245,9 @@ class SchedExecutor:
         for w in range(min(self.n, max(1, self.count))):
             t = _real_threading.Thread(target=self._work, daemon=True)
             self.threads.append(t)
+        # every worker registers with the scheduler before any of them reaches its first switch point (otherwise the first choices depend on
+        # how fast the threads start, and a recorded schedule seed would not replay under load)
+        self._all_registered = _real_threading.Barrier(len(self.threads))
         # register before starting so the scheduler waits for all of them to reach their first yield point
         for t in self.threads:
             t.start()
@@ -254,6 +257,10 @@ class SchedExecutor:
         me = _real_threading.get_ident()
         if rec.sched is not None:
             rec.sched.register(me)
+        try:
+            self._all_registered.wait(timeout=30)
+        except Exception:       # noqa: B902 - a broken barrier only costs reproducibility of the first choices
+            pass
         try:
             while True:
                 try:
